@@ -20,7 +20,7 @@ XL_TRUSTED = ("for the Cxx_source_* theorems only: harness/cmd/go2coq (translato
               "validated on every run by driver xl: real Go function vs extracted translated definition on the same boundary and random inputs")
 
 XL_PID = "XL"        # names coq/extract/ExtractXL.v, ocaml/xl_run.ml, .work/bin/xl_model, .work/XL/<subdir>
-XL_VOS = ["base/MiniGo.vo", "gen/Translated.vo", "base/Bits64.vo", "model/Sizes.vo", "model/LowEntropy.vo", "model/Wire.vo"]
+XL_VOS = ["base/MiniGo.vo", "gen/Translated.vo", "base/Bits64.vo", "model/Sizes.vo", "model/LowEntropy.vo", "model/Wire.vo", "model/KeyTime.vo"]
 
 
 def _source_vs_model(res, out):
